@@ -123,8 +123,6 @@ structure InvC (s : State) : Prop where
 theorem InvC.init : InvC init := by
   constructor <;> simp [Kopf.C20.init, initSt, scPastWait, scEarly, Root.guarded, Root.kind]
 
-def G (cfg : Cfg) : Nat := cfg.E + cfg.W + cfg.D
-
 /-- `startup_cleanup_activities` has not reached the cleanup activity -/
 def scBeforeCleanup : Sc → Bool
   | .cleanup _ | .closing | .over _ => false
